@@ -130,3 +130,47 @@ Section CLASS_LAWS.
     intros Ho Ha. unfold get_attr. rewrite run_bind, Ho, Ha. reflexivity.
   Qed.
 End CLASS_LAWS.
+
+(* ------------------------------------------------------------ attributes created on the spot *)
+Lemma assoc_map_insert_new name (d : dloc) : forall attrs, assoc attrs name = None -> assoc (map_insert name d attrs) name = Some d.
+Proof.
+  unfold assoc. induction attrs as [|[k v] r IH]; intros H; cbn [map_insert].
+  - cbn. rewrite String.eqb_refl. reflexivity.
+  - cbn [find fst] in H. destruct (String.eqb k name) eqn:Ek; [discriminate|].
+    assert (Ek' : String.eqb name k = false) by (rewrite String.eqb_sym; exact Ek).
+    rewrite Ek'. destruct (string_lt name k).
+    + cbn [find fst]. rewrite String.eqb_refl. reflexivity.
+    + cbn [find fst]. rewrite Ek. apply IH. exact H.
+Qed.
+
+Lemma nth_error_replace_nth {A} (x : A) : forall n l, n < List.length l -> nth_error (replace_nth n l x) n = Some x.
+Proof.
+  induction n as [|n IH]; intros [|h t] Hl; cbn in *; try lia; [reflexivity | apply IH; lia].
+Qed.
+
+Section ATTR_CREATE.
+  Variable ev : ast -> M dloc.
+  Variable k : nat.
+  Notation R := (run ev k).
+
+  (* `o.fresh` on a mutable object that has no such attribute: the attribute is entered (undefined) and that very Boxed_Value is what
+     every later read of `o.fresh` answers, without further change — so `o.fresh = v` followed by `o.fresh` yields v *)
+  Lemma attribute_created_once o cn attrs name s dat l :
+    nth_error (s_data s) (dl o) = Some dat -> d_const dat = false -> d_obj dat = Some l ->
+    nth_error (s_objs s) (ol l) = Some (ODyn cn attrs) -> assoc attrs name = None ->
+    exists s', R (get_attr o name) s = (RVal (DL (List.length (s_data s))), s')
+               /\ R (get_attr o name) s' = (RVal (DL (List.length (s_data s))), s').
+  Proof.
+    intros Hd Hc Ho Hobj Ha.
+    assert (Hlt : ol l < List.length (s_objs s)) by (apply nth_error_Some; rewrite Hobj; discriminate).
+    assert (Hd1 : nth_error (s_data s ++ [mkdata None false false]) (dl o) = Some dat).
+    { rewrite nth_error_app1; [exact Hd | apply nth_error_Some; rewrite Hd; discriminate]. }
+    eexists. split.
+    - unfold get_attr. rewrite run_bind. unfold obj_of. cbn [run run_prim]. rewrite Hd, Ho, Hobj. rewrite Ha.
+      rewrite run_bind. unfold new_undef. cbn [run run_prim].
+      unfold write_through. rewrite !run_bind. cbn [run run_prim s_data set_data]. rewrite Hd1, Hc, Ho. cbn [run]. reflexivity.
+    - unfold get_attr. rewrite run_bind. unfold obj_of. cbn [run run_prim s_data s_objs set_objs set_data]. rewrite Hd1, Ho.
+      rewrite nth_error_replace_nth by exact Hlt.
+      rewrite (assoc_map_insert_new name _ attrs Ha). reflexivity.
+  Qed.
+End ATTR_CREATE.
